@@ -30,6 +30,14 @@ STRUCTS = {
     "chain3_vcost": {"vars": {"x": 2, "y": 2, "z": 2}, "cons": [["c0", ["x", "y"]], ["c1", ["y", "z"]]],
                      "varcosts": ["y"]},
     "single_vcost": {"vars": {"x": 2}, "cons": [], "varcosts": ["x"]},
+    # chain of 5 variables (diameter above Max-Sum's stability window of 4 repeats) with unary constraints near both ends
+    "chain5_u": {"vars": {"v1": 2, "v2": 2, "v3": 2, "v4": 2, "v5": 2},
+                 "cons": [["c12", ["v1", "v2"]], ["c23", ["v2", "v3"]], ["c34", ["v3", "v4"]], ["c45", ["v4", "v5"]],
+                          ["u2", ["v2"]], ["u5", ["v5"]]]},
+    "chain4_u": {"vars": {"v1": 2, "v2": 2, "v3": 2, "v4": 2},
+                 "cons": [["c12", ["v1", "v2"]], ["c23", ["v2", "v3"]], ["c34", ["v3", "v4"]],
+                          ["u2", ["v2"]], ["u4", ["v4"]]]},
+    "pair_vcost2": {"vars": {"x": 2, "y": 2}, "cons": [["c0", ["x", "y"]]], "varcosts": ["x", "y"]},
     # scopes listed descendant-first / in reverse lexical order (dimension order differs from the tree order)
     "chain3_rev":  {"vars": {"x": 2, "y": 2, "z": 2}, "cons": [["c0", ["y", "x"]], ["c1", ["z", "y"]]]},
     "triangle_rev": {"vars": {"x": 2, "y": 2, "z": 2},
